@@ -1372,7 +1372,11 @@ rrul_fill_wly(echs_instant_t *restrict tgt, size_t nti, rrulsp_t rr)
 	     ({
 		     d += rr->inter * 7U;
 		     while (d > maxd) {
-			     d--, d %= maxd, d++;
+			     if (UNLIKELY(!maxd)) {
+				     /* beyond the scale's range */
+				     goto fin;
+			     }
+			     d -= maxd;
 			     if (++m > 12U) {
 				     y++;
 				     m = 1U;
@@ -1390,7 +1394,11 @@ rrul_fill_wly(echs_instant_t *restrict tgt, size_t nti, rrulsp_t rr)
 			this_d += incs & 0b1111U;
 
 			while (this_d > this_maxd) {
-				this_d--, this_d %= this_maxd, this_d++;
+				if (UNLIKELY(!this_maxd)) {
+					/* beyond the scale's range */
+					goto fin;
+				}
+				this_d -= this_maxd;
 				if (++this_m > 12U) {
 					this_y++;
 					this_m = 1U;
@@ -1533,7 +1541,11 @@ rrul_fill_dly(echs_instant_t *restrict tgt, size_t nti, rrulsp_t rr)
 			     w = (w - 1U) % 7U + 1U;
 		     }
 		     while (d > maxd) {
-			     d--, d %= maxd, d++;
+			     if (UNLIKELY(!maxd)) {
+				     /* beyond the scale's range */
+				     goto fin;
+			     }
+			     d -= maxd;
 			     if (++m > 12U) {
 				     y++;
 				     m = 1U;
